@@ -14,5 +14,9 @@ SimDels  == SimOne(ns, {i \in 1..(MaxIdx + 1) : i >= FirstI(st) - 1 /\ i <= Last
 \* exhaustive mode: a Save carries either entries or meta data (hard state / snapshot), not both; the
 \* combined form is exercised by the simulation behaviours
 ExhSaves == {a \in SaveArgs : a.n = 0 \/ (a.h = 0 /\ a.si = 0)}
+\* systematic export: entries-only saves of 2 or 3 entries, or a hard-state-only save; the view keeps one
+\* path per distinct store state and step count
+BfsSaves == {a \in SaveArgs : (a.n \in {2, 3} /\ a.h = 0 /\ a.si = 0) \/ (a.n = 0 /\ a.h = 1 /\ a.si = 0)}
+viewD == <<st, open, nr, Len(hist)>>
 Export == (Len(hist) = Depth) => PrintT(<<"TRACE", ToJson(hist)>>)
 =============================================================================
